@@ -47,6 +47,19 @@ func body(c *kernel.Ctx) {
 	types := []core.DutyType{core.DutyAttester, core.DutyProposer, core.DutyRandao, core.DutyAggregator, core.DutySyncMessage, core.DutyExit, core.DutyBuilderRegistration}
 	nSlots := 1 + verifrt.Intn("cfg", 4)
 	nTypes := 1 + verifrt.Intn("cfg", len(types))
+	// Overflow mode (a quarter of the runs): more duties than the deadliner's 10-slot output buffer and a
+	// consumer that keeps reading but needs some time per report, so that the buffer fills while duties
+	// keep expiring. The unchanged deadliner drops a report when the buffer is full; what stays promised
+	// (and checked) is at-most-once, never early, deadline order among what is reported, and that a
+	// duty goes unreported only while 10 earlier reports were waiting to be read.
+	overflow := verifrt.Intn("cfg", 4) == 3
+	maxDuties := 10
+	if overflow {
+		nSlots = 3 + verifrt.Intn("cfg", 6)
+		nTypes = 3 + verifrt.Intn("cfg", 3)
+		maxDuties = 12 + verifrt.Intn("cfg", 19)
+	}
+	c.Set("overflow", overflow)
 	sameDeadline := verifrt.Intn("cfg", 3) == 2 // many duties share one deadline
 	span := 4 + verifrt.Intn("cfg", 40)          // deadlines fall in (0, span] units
 	// Time scale: one unit is a millisecond in most runs; seconds, minutes and several minutes in the
@@ -59,7 +72,7 @@ func body(c *kernel.Ctx) {
 	for s := 1; s <= nSlots; s++ {
 		for ti := 0; ti < nTypes; ti++ {
 			d := core.Duty{Slot: uint64(s), Type: types[ti]}
-			if len(universe) >= 10 { // the deadliner's output buffer holds 10: never more than 10 can be due at one instant
+			if len(universe) >= maxDuties { // outside overflow mode never more than the output buffer's 10 can be due at one instant
 				break
 			}
 			universe = append(universe, d)
@@ -94,6 +107,10 @@ func body(c *kernel.Ctx) {
 	stamp := func() int64 { seq++; return seq }
 
 	// consumer that keeps reading
+	handling := time.Duration(0)
+	if overflow {
+		handling = unit / time.Duration(1+verifrt.Intn("cfg", 8)) // time the consumer spends on each report
+	}
 	verifrt.Go(func() {
 		for {
 			verifrt.Yield()
@@ -106,11 +123,17 @@ func body(c *kernel.Ctx) {
 			mu.Unlock()
 			verifrt.Note("recv %s", simdata.Desc(d))
 			c.Progress()
+			if handling > 0 && verifrt.Intn("w", 4) != 0 {
+				verifrt.Sleep(handling)
+			}
 		}
 	})
 
 	nAdders := 1 + verifrt.Intn("cfg", 3)
 	nOps := 1 + verifrt.Intn("cfg", 8)
+	if overflow {
+		nOps = 6 + verifrt.Intn("cfg", 10)
+	}
 	stallP := verifrt.Intn("cfg", 4) == 3
 	var wg sync.WaitGroup
 	for a := 0; a < nAdders; a++ {
@@ -118,10 +141,13 @@ func body(c *kernel.Ctx) {
 		verifrt.Go(func() {
 			defer wg.Done()
 			for i := 0; i < nOps; i++ {
-				if d := verifrt.Intn("w", 6); d > 0 {
+				if d := verifrt.Intn("w", 6); d > 0 && !(overflow && i > 0 && verifrt.Intn("w", 3) != 0) {
 					verifrt.Sleep(time.Duration(d) * unit * time.Duration(1+span/12))
 				}
 				d := universe[verifrt.Intn("w", len(universe))]
+				if overflow && verifrt.Intn("w", 4) != 0 {
+					d = universe[(a*nOps+i)%len(universe)] // cover the universe: many duties pending at once
+				}
 				t0 := verifrt.Now()
 				st := dl.Add(d)
 				mu.Lock()
@@ -142,6 +168,9 @@ func body(c *kernel.Ctx) {
 	verifrt.WGWait(&wg)
 	// let every deadline pass, then quiesce
 	verifrt.Sleep(time.Duration(2*span+10)*unit + time.Second) // covers the latest stall (starts within span, lasts up to span)
+	if overflow {
+		verifrt.Sleep(40 * unit) // the slow consumer drains what is buffered
+	}
 
 	mu.Lock()
 	defer mu.Unlock()
@@ -223,8 +252,27 @@ func check(c *kernel.Ctx, adds []addRec, recvs []recvRec, deadline map[core.Duty
 			c.Violate("C16", "reported-early", "before-deadline", "duty %s reported at t=%v before its deadline %v", simdata.Desc(d), rs[0].t, deadline[d])
 		}
 	}
+	// A report may be dropped only while the 10-slot output buffer is full, i.e. while 10 reports of
+	// duties that were due no later are still waiting to be read: they are then read at or after this
+	// duty's deadline. (Necessary condition, stated from the outside; never true with <= 10 duties.)
+	dropped := map[core.Duty]bool{}
+	for d := range scheduled {
+		if len(recvOf[d]) != 0 {
+			continue
+		}
+		waiting := 0
+		for d2, rs2 := range recvOf {
+			if d2 != d && !exempt[d2] && deadline[d2] <= deadline[d] && rs2[0].t >= deadline[d] {
+				waiting++
+			}
+		}
+		if waiting >= 10 {
+			dropped[d] = true
+			verifrt.Probe("report-dropped-while-buffer-full")
+		}
+	}
 	for d, t := range scheduled {
-		if len(recvOf[d]) == 0 {
+		if len(recvOf[d]) == 0 && !dropped[d] {
 			c.Violate("C16", "never-reported", "scheduled-duty-not-reported", "duty %s accepted at t=%v (deadline %v) was never reported to a consumer that kept reading", simdata.Desc(d), t, deadline[d])
 		}
 	}
@@ -238,7 +286,7 @@ func check(c *kernel.Ctx, adds []addRec, recvs []recvRec, deadline map[core.Duty
 				// d2 was accepted no later than r was reported: it must have been reported earlier
 				rs2 := recvOf[d2]
 				// accepted at the very instant of r's report and after it in program order is not "pending at the time"
-				if len(rs2) == 0 || rs2[0].seq > r.seq {
+				if (len(rs2) == 0 && !dropped[d2]) || (len(rs2) > 0 && rs2[0].seq > r.seq) {
 					acceptedBefore := false
 					for _, a := range adds {
 						if a.duty == d2 && a.status == core.DeadlineScheduled && a.seq < r.seq {
